@@ -9,7 +9,8 @@ import RzilVerif.Lemmas.StmtLemmas
     discharged in `Props/C05Compose.lean`.  All statement forms the model executes are covered:
     declaration, simple/compound assignment to locals and registers, chained assignment, memory store,
     `if`/`else`, `for` with step `v++` and `v += k`, `JUMP`, the skip statements
-    (`exprstmt`/`ret` are rejected by `execC`/`compileStmt` themselves).
+    (`exprstmt`/`ret` are rejected by `WFStmt`/`compileStmt`; `execC` evaluates and discards a bare value).
+    Assignment targets: declared locals, registers, and immediates the lowering has registered (`riV = riV & ~3`).
   * the static side conditions are the computable `Ctx.ok`, `WFStmt` (`Model/StmtWF.lean`); dropping
     `WFStmt` is refuted: `stmt_correct_fixed_unrestricted_false` (`a = b += a`).
   T2: `stmt_asCode_eq_fixed`, `stmts_asCode_eq_fixed`, `prog_asCode_eq_fixed`,
@@ -226,7 +227,10 @@ theorem stmt_main : ∀ f : Nat,
 /-- **C05 (T1), statements.** Under `Cfg.fixed`, if the C statement `s` runs from `σC` to `σC'` and the
     IL state `σIL` is related to `σC`, the compiled effect runs from `σIL` to a state related to `σC'`.
     `Inv c` is `StRel` plus the IL-side invariant (`SInv`: locals have their declared widths, every
-    immediate letter of the behaviour is set, source operands are unwritten) plus "no `h_tmpN` on the C side". -/
+    immediate letter of the behaviour is set to a 32-bit value, source operands are unwritten) plus `immVal` (the IL
+    local of every registered immediate letter holds the 32-bit value of the C side's CURRENT immediate — so the
+    invariant survives an assignment to an immediate, `riV = riV & ~3`) plus "no `h_tmpN` and no immediate letter is a
+    local on the C side".  `StRel` itself does not relate the two `imm` components. -/
 theorem stmt_correct_fixed {s : CStmt} {st st' : TSt} {eff : ILEffect}
     (hcomp : compileStmt env st s = .ok (eff, st')) (hwf : WFStmt c s = true)
     (hWF : WFHyp ms WF c (exprsOf s)) {σC σIL σC' : MState} (hinv : Inv c σC σIL)
@@ -244,7 +248,9 @@ theorem stmts_correct_fixed {ss : List CStmt} {st st' : TSt} {effs : List ILEffe
   obtain ⟨f, hf⟩ := ExecCs_iff.1 hex
   exact (stmt_main hE henv hc f).2.1 ss st effs st' σC σIL σC' hcomp hwf hWF hinv hf
 
-/-- the conclusion in the form of the specification: related final states -/
+/-- the conclusion in the form of the specification: related final states (`StRel`: registers, `.new` bank, memory,
+    store log, packet address, every C local; NOT the immediates — after `riV = e` the C side has a new `imm "r"`,
+    the IL side a new LOCAL `r`; that correspondence is `Inv.immVal`, kept by `stmt_correct_fixed`) -/
 theorem stmt_correct_fixed_rel {s : CStmt} {st st' : TSt} {eff : ILEffect}
     (hcomp : compileStmt env st s = .ok (eff, st')) (hwf : WFStmt c s = true)
     (hWF : WFHyp ms WF c (exprsOf s)) {σC σIL σC' : MState} (hinv : Inv c σC σIL)
@@ -257,8 +263,11 @@ end Main
 
 /-! ## whole behaviours -/
 
-/-- **C05 (T1), whole behaviour.** Both sides start from the same state without locals; the C program and
-    the compiled effect (prologue setting all immediates, then the statements) end in related states. -/
+/-- **C05 (T1), whole behaviour.** Both sides start from the same state without locals (in particular with the SAME
+    immediates: the prologue reads them); the C program and the compiled effect (prologue setting all immediates, then
+    the statements) end in related states.  `StRel` does not relate the immediates of the final states: they are not an
+    observable output, and the behaviour may assign to them.  For behaviours that do not, `imm_eq_of_noImmTargets`
+    (Lemmas/ImmFrame.lean) adds `σC'.imm = σIL'.imm`. -/
 theorem prog_correct_fixed {ms : MacroSem} {WF : MState → CExpr → Prop} (hE : ExprOK ms WF)
     {c : Ctx} (hc : c.ok = true) {prog : List CStmt} {eff : ILEffect}
     (hcomp : compileProg Cfg.fixed prog = .ok eff)
@@ -319,7 +328,8 @@ theorem prog_asCode_eq_fixed {CarveE : CExpr → Bool} (prog : List CStmt)
   simp only [codeEnv, fixedEnv] at this
   simp only [this]
 
-/-- T1 + T2: on the carve-out the lowering AS CODED preserves the C semantics -/
+/-- T1 + T2: on the carve-out the lowering AS CODED preserves the C semantics (final states: `StRel`, which does not
+    relate the immediates, see `prog_correct_fixed`) -/
 theorem prog_correct_asCode_on_carveout {ms : MacroSem} {WF : MState → CExpr → Prop} (hE : ExprOK ms WF)
     {CarveE : CExpr → Bool} {prog : List CStmt}
     (hT2 : ExprT2 { assigned := assignedOfList prog, cfg := Cfg.fixed } CarveE)
